@@ -38,7 +38,7 @@
    long options (git accepts unambiguous prefixes such as --no-pref; the table knows full
    spellings only). *)
 From Coq Require Import List NArith Bool.
-From Verif Require Import Base.Str Gen.GenProfile Gen.GenInternalGit Model.Profile Proofs.ProfileProofs.
+From Verif Require Import Base.Str Gen.GenProfile Gen.GenInternalGit Gen.GenStateProbes Model.Profile Proofs.ProfileProofs.
 Import ListNotations.
 Open Scope N_scope.
 
@@ -201,6 +201,15 @@ Theorem C12_hooks_prefix_keeps_subcommand : forall args g s r,
     Some ((if already_overrides_hooks args then [] else [gen_hooks_flag; gen_hooks_key_eq ++ gen_null_hooks_path]) ++ g, s, r).
 Proof. exact hooks_prefix_find_sub. Qed.
 Print Assumptions C12_hooks_prefix_keeps_subcommand.
+
+(* ---- linked work trees: every probe of git's per-work-tree operation state (CHERRY_PICK_HEAD, sequencer/,
+   rebase-merge/, MERGE_HEAD ...) found by the scan goes through the work tree's own git directory, never through
+   the shared one; in particular all probes of the cherry-pick and rebase hooks *)
+Theorem C12_state_probes_per_worktree :
+  state_probes_ok gen_state_probes = true /\ hook_probes_per_worktree gen_state_probes = true /\
+  Nat.leb 10 (length gen_state_probes) = true.
+Proof. vm_compute. repeat split. Qed.
+Print Assumptions C12_state_probes_per_worktree.
 
 (* ---- non-vacuity *)
 
